@@ -7,7 +7,7 @@
    Inline expressions with call arguments (CallArgs.binline, CallArgs.bsel) are written in the canonical text
    SerializerCalls.ctext.
      1. the canonical text of expressions and patterns (structural functions of the joined tree)
-     2. it is a layout (RoundTripSel.etextd / RoundTripML.ml_value_layout)
+     2. it is a layout (RoundTripSel.etextd / RoundTripML.wl_value_layout)
      3. the serializer writes it for every split tree that joins to the tree
      4. the instance of SerializerLoop.v and EntryLoop.v; round trip and fixed point                 *)
 From FluentV Require Import Base.Bytes Base.Outcome Base.Utf8 Base.Utf8Facts.
